@@ -259,7 +259,7 @@ def ref_semaphore(case):
                 free[key] -= 1
                 state[i] = 'run'
                 out[i].update(enter=t, slot=True)
-                heapq.heappush(ev, (t + c['dur'], 2, 'finish', i))
+                heapq.heappush(ev, (t + _hold(case, c), 2, 'finish', i))
             else:
                 state[i] = 'wait'
                 q.append(i)
@@ -270,7 +270,7 @@ def ref_semaphore(case):
             state[i] = 'done'
             out[i]['fate'] = 'raise' if c.get('raises') else 'ok'
             if out[i]['slot']:
-                _release(key, t, free, q, state, out, callers, ev, heapq)
+                _release(key, t, free, q, state, out, callers, ev, heapq, case)
         elif kind == 'semtimeout':
             if state.get(i) != 'wait':
                 continue
@@ -278,7 +278,7 @@ def ref_semaphore(case):
             if case['lax']:
                 state[i] = 'run'
                 out[i].update(enter=t, slot=False)
-                heapq.heappush(ev, (t + c['dur'], 2, 'finish', i))
+                heapq.heappush(ev, (t + _hold(case, c), 2, 'finish', i))
             else:
                 state[i] = 'done'
                 out[i]['fate'] = 'semtimeout'
@@ -291,16 +291,24 @@ def ref_semaphore(case):
                 state[i] = 'done'
                 out[i]['fate'] = 'cancelled'
                 if out[i]['slot']:
-                    _release(key, t, free, q, state, out, callers, ev, heapq)
+                    _release(key, t, free, q, state, out, callers, ev, heapq, case)
     return out
 
 
-def _release(key, t, free, q, state, out, callers, ev, heapq):
+def _hold(case, c) -> float:
+    """How long a caller keeps its slot: the semaphore is acquired once and held across all retries and the waits between them."""
+    r = case.get('retries', 0)
+    if c.get('raises') and r:
+        return (r + 1) * c['dur'] + r * case.get('wait', 0)
+    return c['dur']
+
+
+def _release(key, t, free, q, state, out, callers, ev, heapq, case=None):
     if q:
         j = q.pop(0)
         state[j] = 'run'
         out[j].update(enter=t, slot=True)
-        heapq.heappush(ev, (t + callers[j]['dur'], 2, 'finish', j))
+        heapq.heappush(ev, (t + _hold(case or {}, callers[j]), 2, 'finish', j))
     else:
         free[key] += 1
 
@@ -327,7 +335,7 @@ def exec_sem(case) -> Result:
     probe_state = {'started': [], 'hold': None}
 
     def deco(scope):
-        return retry(wait=0, retries=0, timeout=1000.0, semaphore_limit=L, semaphore_name=uid, semaphore_lax=lax, semaphore_scope=scope, semaphore_timeout=case['sem_timeout'])
+        return retry(wait=case.get('wait', 0), retries=case.get('retries', 0), timeout=1000.0, semaphore_limit=L, semaphore_name=uid, semaphore_lax=lax, semaphore_scope=scope, semaphore_timeout=case['sem_timeout'])
 
     async def body(i):
         c = callers[i]
@@ -339,8 +347,10 @@ def exec_sem(case) -> Result:
         loop = asyncio.get_running_loop()
         inprog[key] = inprog.get(key, 0) + 1
         peak[key] = max(peak.get(key, 0), inprog[key])
-        obs[i]['enter'] = loop.time()
-        obs[i]['inprog_at_enter'] = inprog[key]
+        if obs[i]['enter'] is None:  # first attempt: the slot is held from here across all retries
+            obs[i]['enter'] = loop.time()
+            obs[i]['inprog_at_enter'] = inprog[key]
+        obs[i]['attempts'] = obs[i].get('attempts', 0) + 1
         try:
             await asyncio.sleep(c['dur'])
             if c.get('raises'):
@@ -493,8 +503,9 @@ def exec_sem(case) -> Result:
         if v is not None and v != L:
             bad('slots-leaked-or-over-released', key=k, value=v)
     res.nontrivial = True
-    res.fingerprint = hashlib.blake2b(json.dumps([L, lax, case['sem_timeout'], [(c['scope'], round(c['at'], 4), round(c['dur'], 4), c.get('raises'), c.get('cancel_at') is not None) for c in callers], case.get('phases')], sort_keys=True).encode(), digest_size=8).hexdigest()
-    res.sample = {'limit': L, 'lax': lax, 'sem_timeout': case['sem_timeout'], 'callers': callers[:8], 'observed': {i: obs[i] for i in list(obs)[:8]}, 'peak_in_progress': peak}
+    res.fingerprint = hashlib.blake2b(json.dumps([L, lax, case['sem_timeout'], case.get('retries', 0), case.get('wait', 0), [(c['scope'], round(c['at'], 4), round(c['dur'], 4), c.get('raises'), c.get('cancel_at') is not None) for c in callers], case.get('phases')], sort_keys=True).encode(), digest_size=8).hexdigest()
+    res.counters['c20_cases_with_retries'] = 1 if case.get('retries') else 0
+    res.sample = {'limit': L, 'lax': lax, 'sem_timeout': case['sem_timeout'], 'retries': case.get('retries', 0), 'wait': case.get('wait', 0), 'callers': callers[:8], 'observed': {i: obs[i] for i in list(obs)[:8]}, 'peak_in_progress': peak}
     return res
 
 
@@ -533,6 +544,9 @@ class SemFamily(Family):
                 callers = callers + extra
                 ncall = len(callers)
             base = {'family': self.name, 'limit': L, 'lax': lax, 'sem_timeout': sem_to, 'callers': callers}
+            if j % 3 == 1:
+                base['retries'] = rng.choice([1, 2])
+                base['wait'] = rng.choice([0.0, 0.033, 0.4])
             i += 1
             yield dict(base, i=i)
             # cancellation of one caller at enumerated instants
